@@ -17,7 +17,7 @@ import (
 
 // C15: reattach reaches the same live plugin; test mode never kills the server.
 
-var c15Scenarios = []string{"basic", "second-hop", "multi", "kill-b", "kill-a-then-reattach", "crash-then-reattach", "nothing-listens", "pid-reused", "testmode", "testmode-kill-many", "testmode-second-hop"}
+var c15Scenarios = []string{"basic", "second-hop", "multi", "kill-b", "kill-a-then-b", "kill-both", "frozen-kill-b", "kill-a-then-reattach", "crash-then-reattach", "nothing-listens", "pid-reused", "testmode", "testmode-kill-many", "testmode-second-hop"}
 
 func init() {
 	Register(&Prop{ID: "C15",
@@ -238,6 +238,54 @@ func runC15(r *h.Run) {
 		if !a.Exited() {
 			r.Violate("not-exited", ctx+" client=A", "plugin terminated through B but the original client does not report it exited")
 		}
+	case "kill-a-then-b", "kill-both", "frozen-kill-b":
+		// the reattached client's Kill takes the force-kill path (the original
+		// client is shutting the plugin down, or the plugin is frozen): when it
+		// returns and the process is gone, the client knows that it exited
+		b := reattachClient(r, proto, rc, "B")
+		checkSees(b, "B")
+		atReturn := func(cl *plugin.Client, name string) {
+			if !plug.Alive() && !cl.Exited() {
+				r.Violate("not-exited", ctx+" client="+name+" at-kill-return", "Kill returned, the plugin process is gone, but Exited() is still false")
+			}
+		}
+		switch scen {
+		case "kill-a-then-b":
+			if !kill(a, "A") {
+				return
+			}
+			atReturn(a, "A")
+			if !kill(b, "B") {
+				return
+			}
+			atReturn(b, "B")
+		case "kill-both":
+			var wg sync.WaitGroup
+			wg.Add(1)
+			go k.Trap(func() {
+				defer wg.Done()
+				if kill(a, "A") {
+					atReturn(a, "A")
+				}
+			})
+			time.Sleep(time.Duration(w.Range("killboth/offset", 4)) * 500 * time.Microsecond)
+			if kill(b, "B") {
+				atReturn(b, "B")
+			}
+			wg.Wait()
+		case "frozen-kill-b":
+			plug.Stop()
+			w.CountFault("proc.stop")
+			if !kill(b, "B") {
+				return
+			}
+			atReturn(b, "B")
+		}
+		time.Sleep(3 * time.Second)
+		if plug.Alive() {
+			r.Violate("reattach-kill-ineffective", ctx, "Kill returned but the plugin process is still running")
+		}
+		bystanderAlive(scen)
 	case "kill-a-then-reattach", "crash-then-reattach":
 		if scen == "crash-then-reattach" {
 			plug.Crash(137, "crash")
